@@ -124,7 +124,7 @@ class AttrWrap(AttrMap):
         >> w
         <AttrWrap flow widget <Divider flow widget '-'> attr='old'>
         """
-        self.set_focus_map({None: focus_attr})
+        self.set_focus_map(None if focus_attr is None else {None: focus_attr})
 
     focus_attr = property(get_focus_attr, set_focus_attr)
 
